@@ -380,15 +380,18 @@ class CookieJar(AbstractCookieJar):
                 cookie["path"] = path
             path = path.rstrip("/")
 
+            max_age_valid = False
             if max_age := cookie["max-age"]:
                 try:
                     delta_seconds = int(max_age)
                     max_age_expiration = min(time.time() + delta_seconds, self.MAX_TIME)
                     self._expire_cookie(max_age_expiration, domain, path, name)
+                    max_age_valid = True
                 except ValueError:
+                    # an invalid Max-Age is ignored, Expires still applies
                     cookie["max-age"] = ""
 
-            elif expires := cookie["expires"]:
+            if not max_age_valid and (expires := cookie["expires"]):
                 if (expire_time := self._parse_date(expires)) is not None:
                     self._expire_cookie(expire_time, domain, path, name)
                 else:
